@@ -5,6 +5,7 @@ import (
 	"go/ast"
 	"go/token"
 	"go/types"
+	"sort"
 	"strings"
 )
 
@@ -158,14 +159,7 @@ func (x *X) translate(fi *FuncInfo) {
 		}
 		o.emit(1, "return %s", c.userCall(gi, fi.fwdCall, args))
 	} else {
-		c.block(o, 1, fi.body)
-		if n := len(fi.body); n == 0 || !isReturn(fi.body[n-1]) {
-			if fi.results.Len() == 0 {
-				o.emit(1, "return %s", c.retTuple(nil))
-			} else if fs, ok := fi.body[n-1].(*ast.ForStmt); ok && fs.Cond == nil {
-				o.emit(1, "throw (Err.panic \"unreachable:%s\")", fi.lean) // Go: a `for {}` without break is a terminating statement
-			}
-		}
+		c.funcBody(o, 1, fi.body, nil)
 	}
 	for _, or := range c.fi.oracles {
 		header = append(header, fmt.Sprintf("(%s : %s)", or.name, or.typ))
@@ -200,6 +194,147 @@ func (x *X) translate(fi *FuncInfo) {
 }
 
 func isReturn(s ast.Stmt) bool { _, ok := s.(*ast.ReturnStmt); return ok }
+
+type mutScope struct{ ind, start int }
+
+// funcBody emits the statements of a function body (or the rest of one). A statement that registers the closing of a socket
+// for the time the function returns — `defer s.Close()`, or the closer idiom `ctx, cancel := context.WithCancel(..); defer
+// cancel(); go func() { <-ctx.Done(); s.Close() }()` — turns the REST of the body into an inner block; when that block is
+// left, by whichever `return`, the socket is closed (environment operation SockClose) and the block's value is returned.
+func (c *fctx) funcBody(o *out, ind int, body []ast.Stmt, scopes []mutScope) {
+	fi := c.fi
+	for i, st := range body {
+		if c.registersSockClose(st) {
+			if c.loop != nil {
+				bad("socket close registered inside a loop at %s", c.site(st.Pos()))
+			}
+			closeOp := c.x.envUse(c.envName(), "SockClose", nil, "GoErr")
+			fi.effectful = true
+			r := c.fresh("__r")
+			o.emit(ind, "let %s ← (do", r)
+			// mutable locals in scope are re-declared: the inner block may assign them, nothing after it reads them
+			seen := map[string]bool{}
+			for _, sc := range append(append([]mutScope{}, scopes...), mutScope{ind, 0}) {
+				for k := sc.start; k < len(o.lines); k++ {
+					l := o.lines[k]
+					t := strings.TrimLeft(l, " ")
+					if len(l)-len(t) == 2*sc.ind && strings.HasPrefix(t, "let mut ") {
+						n := strings.Fields(t[len("let mut "):])[0]
+						if !seen[n] {
+							seen[n] = true
+						}
+					}
+				}
+			}
+			var names []string
+			for n := range seen {
+				names = append(names, n)
+			}
+			sort.Strings(names)
+			for _, n := range names {
+				o.emit(ind+2, "let mut %s := %s", n, n)
+			}
+			start := len(o.lines)
+			c.funcBody(o, ind+2, body[i+1:], append(append([]mutScope{}, scopes...), mutScope{ind, 0}, mutScope{ind + 2, start}))
+			o.emit(ind+1, ")")
+			o.emit(ind, "let _ ← %s", closeOp)
+			o.emit(ind, "return %s", r)
+			return
+		}
+		c.stmt(o, ind, st)
+	}
+	if n := len(body); n == 0 || !isReturn(body[n-1]) {
+		if fi.results.Len() == 0 {
+			o.emit(ind, "return %s", c.retTuple(nil))
+		} else if n > 0 {
+			if fs, ok := body[n-1].(*ast.ForStmt); ok && fs.Cond == nil {
+				o.emit(ind, "throw (Err.panic \"unreachable:%s\")", fi.lean) // Go: a `for {}` without break is a terminating statement
+			}
+		}
+	}
+}
+
+// registersSockClose: `defer s.Close()` on a socket, or the closer goroutine `go func() { <-ctx.Done(); s.Close() }()` whose
+// context is cancelled by a deferred cancel() of this function (so the close happens when the function returns at the latest).
+func (c *fctx) registersSockClose(st ast.Stmt) bool {
+	switch t := st.(type) {
+	case *ast.DeferStmt:
+		if se, ok := t.Call.Fun.(*ast.SelectorExpr); ok && se.Sel.Name == "Close" && c.x.kindOf(c.typeOf(se.X)) == kSock {
+			return true
+		}
+	case *ast.GoStmt:
+		fl, ok := t.Call.Fun.(*ast.FuncLit)
+		if !ok || len(fl.Body.List) != 2 {
+			return false
+		}
+		// first statement: <-X.Done()
+		es, ok := fl.Body.List[0].(*ast.ExprStmt)
+		if !ok {
+			return false
+		}
+		u, ok := es.X.(*ast.UnaryExpr)
+		if !ok || u.Op != token.ARROW {
+			return false
+		}
+		dc, ok := u.X.(*ast.CallExpr)
+		if !ok {
+			return false
+		}
+		f := calleeFunc(c.info, dc)
+		dse, ok2 := dc.Fun.(*ast.SelectorExpr)
+		if f == nil || f.FullName() != "(context.Context).Done" || !ok2 {
+			return false
+		}
+		ctxID, ok := dse.X.(*ast.Ident)
+		if !ok {
+			return false
+		}
+		// second statement: s.Close() on a socket
+		cs, ok := fl.Body.List[1].(*ast.ExprStmt)
+		if !ok {
+			return false
+		}
+		cc, ok := cs.X.(*ast.CallExpr)
+		if !ok {
+			return false
+		}
+		se, ok := cc.Fun.(*ast.SelectorExpr)
+		if !ok || se.Sel.Name != "Close" || c.x.kindOf(c.typeOf(se.X)) != kSock {
+			return false
+		}
+		// the awaited context is a local derived by context.WithCancel/WithTimeout/WithDeadline whose cancel function is deferred
+		if !c.cancelledOnReturn(ctxID) {
+			bad("closer goroutine at %s waits for a context this function does not cancel on return", c.site(st.Pos()))
+		}
+		return true
+	}
+	return false
+}
+
+// cancelledOnReturn: `id, cancel := context.WithX(...)` and `defer cancel()` both occur at the top level of this function.
+func (c *fctx) cancelledOnReturn(id *ast.Ident) bool {
+	ctxVar := c.info.ObjectOf(id)
+	var cancelVar types.Object
+	for _, st := range c.fi.decl.Body.List {
+		if as, ok := st.(*ast.AssignStmt); ok && len(as.Lhs) == 2 && len(as.Rhs) == 1 {
+			if l0, ok := as.Lhs[0].(*ast.Ident); ok && c.info.ObjectOf(l0) == ctxVar {
+				if call, ok := as.Rhs[0].(*ast.CallExpr); ok {
+					if f := calleeFunc(c.info, call); f != nil && (f.FullName() == "context.WithCancel" || f.FullName() == "context.WithTimeout" || f.FullName() == "context.WithDeadline") {
+						if l1, ok := as.Lhs[1].(*ast.Ident); ok {
+							cancelVar = c.info.ObjectOf(l1)
+						}
+					}
+				}
+			}
+		}
+		if ds, ok := st.(*ast.DeferStmt); ok && cancelVar != nil {
+			if fid, ok := ds.Call.Fun.(*ast.Ident); ok && c.info.ObjectOf(fid) == cancelVar && len(ds.Call.Args) == 0 {
+				return true
+			}
+		}
+	}
+	return false
+}
 
 func (c *fctx) zeroResult(t types.Type) string {
 	if c.x.kindOf(t) == kPtrStruct {
@@ -363,7 +498,7 @@ func (c *fctx) stmt(o *out, ind int, s ast.Stmt) {
 			return
 		}
 		if se, ok := t.Call.Fun.(*ast.SelectorExpr); ok && se.Sel.Name == "Close" && c.x.kindOf(c.typeOf(se.X)) == kSock {
-			return // defer s.Close(): resource discipline (C19, facts + fault enumeration), not behaviour of this layer
+			bad("defer of a socket Close below the top level of a function at %s", c.site(s.Pos())) // top level: funcBody
 		}
 		if !isIgnorable(calleeFunc(c.info, t.Call)) {
 			bad("defer at %s", c.site(s.Pos()))
@@ -678,7 +813,9 @@ func (c *fctx) envMulti(call *ast.CallExpr) bool {
 }
 
 // selectStmt: the one shape the code uses — wait for a timer or for the context, whichever comes first:
+//
 //	select { case <-time.After(d): A...; case <-ctx.Done(): B... }
+//
 // The environment says which one fired (`SelectAfter d` = true: the timer).
 func (c *fctx) selectStmt(o *out, ind int, t *ast.SelectStmt) {
 	var timer, done *ast.CommClause
